@@ -215,6 +215,43 @@ ChainRef = typing.NewType("ChainRef", Chain)
 class ChainP:
     value: int
     next: typing.Optional[ChainP] = None
+# wrappers that cannot be found again by their own declared name: bound to another variable name / made by a factory of another module
+@dataclasses.dataclass
+class Renamed:
+    value: int
+    children: list[RenamedRef] = dataclasses.field(default_factory=list)
+RenamedRef = typing.NewType("RenamedId", Renamed)
+import vm_c11_kit
+@dataclasses.dataclass
+class KitNT:
+    value: int
+    children: list[KitNTRef] = dataclasses.field(default_factory=list)
+KitNTRef = vm_c11_kit.new_type("KitNTRef", KitNT)
+@dataclasses.dataclass
+class KitAl:
+    value: int
+    nxt: typing.Optional[KitAlRef] = None
+KitAlRef = vm_c11_kit.new_alias("KitAlRef", KitAl)
+@dataclasses.dataclass
+class Chained:
+    value: int
+    children: list[ChainedRef] = dataclasses.field(default_factory=list)
+ChainedRef = typing.TypeAliasType("ChainedRef", typing.NewType("ChainedMid", typing.TypeAliasType("ChainedIn", Chained)))
+@dataclasses.dataclass
+class ListP:
+    value: int
+    children: list[ListP] = dataclasses.field(default_factory=list)
+@dataclasses.dataclass
+class OptP:
+    value: int
+    nxt: typing.Optional[OptP] = None
+"""
+KIT_SRC = """
+import typing
+def new_type(name, base):
+    return typing.NewType(name, base)
+def new_alias(name, base):
+    return typing.TypeAliasType(name, base)
 """
 
 
@@ -239,6 +276,9 @@ def nested_refs(seed):
     import types
     import typing
     import typelib
+    kit = types.ModuleType("vm_c11_kit")
+    sys.modules["vm_c11_kit"] = kit
+    exec(compile(KIT_SRC, "vm_c11_kit.py", "exec"), kit.__dict__)
     m = types.ModuleType("vm_c11_n")
     sys.modules["vm_c11_n"] = m
     exec(compile(NESTED_SRC, "vm_c11_n.py", "exec"), m.__dict__)
@@ -351,6 +391,12 @@ def nested_refs(seed):
         ("recursive model, back-edge through a NewType (root = the class)", m.Chain, m.ChainP, chain),
         ("recursive model, back-edge through a NewType (root = the NewType)", m.ChainRef, m.ChainP, chain),
         ("recursive model, back-edge through a NewType (root = dict of it)", dict[str, m.Chain], dict[str, m.ChainP], {"k": chain}),
+        ("recursive model, back-edge through a NewType bound to another name than it declares", m.Renamed, m.ListP, tree),
+        ("recursive model, back-edge through a NewType made by a factory of another module", m.KitNT, m.ListP, tree),
+        ("recursive model, back-edge through an alias made by a factory of another module", m.KitAl, m.OptP,
+         {"value": "1", "nxt": {"value": "2", "nxt": {"value": 3, "nxt": None}}}),
+        ("recursive model, back-edge through alias -> NewType -> alias", m.Chained, m.ListP, tree),
+        ("recursive model, back-edge through a renamed NewType (root = list of the class)", list[m.Renamed], list[m.ListP], [tree]),
     ):
         a, b = obs(lambda: typelib.unmarshal(tw, raw)), obs(lambda: typelib.unmarshal(tp, raw))
         diffs = [] if a == b else [f"unmarshal: wrapped {json.dumps(a)[:140]} vs plain {json.dumps(b)[:140]}"]
